@@ -244,7 +244,9 @@ class Resolver:
             if len(fs) == 1:
                 return fs
             same = [x for x in fs if x.module is fi.module]
-            return same[:1]
+            if same:
+                return same[:1]
+            return self.dispatch_targets(fi, f)
         if isinstance(f, ast.Attribute):
             # super().m()
             if isinstance(f.value, ast.Call) and isinstance(f.value.func, ast.Name) and f.value.func.id == "super" and fi.cls:
@@ -263,7 +265,139 @@ class Resolver:
                     for sc in self.p.subclasses(c):
                         if f.attr in sc.methods:
                             out.append(sc.methods[f.attr])
+                if out:
+                    return out
+        return self.dispatch_targets(fi, f)
+
+    # ------------------------------------------------------------------
+    # dynamic dispatch inside a class: getattr(self, name)(…), handler tables of method names / method references,
+    # helpers that return a handler.  Over-approximating (every method named by the table is a target).
+    def dispatch_targets(self, fi: FuncInfo, f, depth=0) -> list[FuncInfo]:
+        if fi.cls is None:
+            return []
+        if isinstance(f, ast.Name):
+            if f.id in fi.params() and f.id != "self":
+                return []
+            if not self._local_defs(fi, f.id):
+                return []
+        elif isinstance(f, ast.Call):
+            if not ((isinstance(f.func, ast.Name) and f.func.id == "getattr") or (isinstance(f.func, ast.Attribute) and f.func.attr in ("get", "pop", "setdefault"))):
+                return []
+        elif isinstance(f, ast.Subscript):
+            pass
+        else:
+            return []
+        out = {}
+        for m in self._leaves(fi, f, 0, set()):
+            out[m.key] = m
+        return list(out.values())
+
+    def _local_defs(self, fi, name):
+        key = (fi.key, name)
+        memo = self.__dict__.setdefault("_ldefs", {})
+        if key in memo:
+            return memo[key]
+        out = []
+        for n in ast.walk(fi.node):
+            if isinstance(n, ast.Assign) and any(isinstance(x, ast.Name) and x.id == name for t in n.targets for x in ast.walk(t)):
+                out.append(n.value)
+            elif isinstance(n, ast.AnnAssign) and isinstance(n.target, ast.Name) and n.target.id == name and n.value is not None:
+                out.append(n.value)
+            elif isinstance(n, (ast.For, ast.comprehension)) and any(isinstance(x, ast.Name) and x.id == name for x in ast.walk(n.target)):
+                out.append(n.iter)
+            elif isinstance(n, ast.NamedExpr) and isinstance(n.target, ast.Name) and n.target.id == name:
+                out.append(n.value)
+        memo[key] = out
+        return out
+
+    def _leaves(self, fi, e, depth, busy):
+        """methods of fi.cls that expression `e` may denote (as a bound/unbound method or by name)"""
+        cls = fi.cls
+        if depth > 6 or e is None:
+            return []
+        out = []
+        def method(name):
+            m = self.p.find_method(cls, name)
+            return [m] if m is not None else []
+        if isinstance(e, ast.Constant):
+            return method(e.value) if isinstance(e.value, str) else []
+        if isinstance(e, ast.Attribute):
+            if isinstance(e.value, ast.Name) and e.value.id in ("self", "cls", cls.name):
+                if e.attr in cls.assigns:
+                    return self._leaves(fi, cls.assigns[e.attr], depth + 1, busy)
+                return method(e.attr)
+            return []
+        if isinstance(e, ast.Name):
+            k = (fi.key, e.id)
+            if k in busy:
+                return []
+            busy = busy | {k}
+            defs = self._local_defs(fi, e.id) if fi.node is not None else []
+            if defs:
+                for d in defs:
+                    out.extend(self._leaves(fi, d, depth + 1, busy))
                 return out
+            if e.id in cls.assigns:
+                return self._leaves(fi, cls.assigns[e.id], depth + 1, busy)
+            mod_assign = getattr(fi.module, "assigns", {}).get(e.id) if hasattr(fi.module, "assigns") else None
+            if mod_assign is None:
+                for st in fi.module.tree.body:
+                    if isinstance(st, ast.Assign) and any(isinstance(t, ast.Name) and t.id == e.id for t in st.targets):
+                        mod_assign = st.value
+                    elif isinstance(st, ast.AnnAssign) and isinstance(st.target, ast.Name) and st.target.id == e.id:
+                        mod_assign = st.value
+            if mod_assign is not None:
+                return self._leaves(fi, mod_assign, depth + 1, busy)
+            if e.id in cls.methods:
+                return [cls.methods[e.id]]
+            return []
+        if isinstance(e, ast.Call):
+            fn = e.func
+            if isinstance(fn, ast.Name) and fn.id == "getattr" and len(e.args) >= 2:
+                r = self._leaves(fi, e.args[1], depth + 1, busy)
+                if len(e.args) > 2:
+                    r = r + self._leaves(fi, e.args[2], depth + 1, busy)
+                return r
+            if isinstance(fn, ast.Attribute) and fn.attr in ("get", "pop", "setdefault", "items", "values", "keys"):
+                r = self._leaves(fi, fn.value, depth + 1, busy)
+                for a in e.args[1:]:
+                    r = r + self._leaves(fi, a, depth + 1, busy)
+                return r
+            if isinstance(fn, ast.Name) and fn.id in ("dict", "tuple", "list", "iter", "next", "sorted", "reversed", "enumerate", "zip"):
+                for a in e.args:
+                    out.extend(self._leaves(fi, a, depth + 1, busy))
+                return out
+            if isinstance(fn, ast.Attribute) and isinstance(fn.value, ast.Name) and fn.value.id in ("self", "cls"):
+                g = self.p.find_method(cls, fn.attr)
+                if g is not None and g.key not in busy:
+                    b2 = busy | {g.key}
+                    for n in ast.walk(g.node):
+                        if isinstance(n, ast.Return) and n.value is not None:
+                            out.extend(self._leaves(g, n.value, depth + 1, b2))
+                return out
+            return []
+        if isinstance(e, ast.Subscript):
+            return self._leaves(fi, e.value, depth + 1, busy)
+        if isinstance(e, (ast.Tuple, ast.List, ast.Set)):
+            for x in e.elts:
+                out.extend(self._leaves(fi, x, depth + 1, busy))
+            return out
+        if isinstance(e, ast.Dict):
+            for x in e.values:
+                out.extend(self._leaves(fi, x, depth + 1, busy))
+            return out
+        if isinstance(e, ast.IfExp):
+            return self._leaves(fi, e.body, depth + 1, busy) + self._leaves(fi, e.orelse, depth + 1, busy)
+        if isinstance(e, ast.BoolOp):
+            for x in e.values:
+                out.extend(self._leaves(fi, x, depth + 1, busy))
+            return out
+        if isinstance(e, (ast.DictComp,)):
+            return self._leaves(fi, e.value, depth + 1, busy)
+        if isinstance(e, (ast.ListComp, ast.SetComp, ast.GeneratorExp)):
+            return self._leaves(fi, e.elt, depth + 1, busy)
+        if isinstance(e, ast.NamedExpr):
+            return self._leaves(fi, e.value, depth + 1, busy)
         return []
 
     def callgraph(self):
